@@ -17,12 +17,16 @@
      - the reconstructor reads the counters and the texts, not the leading whitespace, of tokens that are not ignored (recon_ws).
 
    Hypotheses (idem_hyp; all decidable on the first run, evaluated by the driver unit `idemhyp`):
-     1,2  rescan_ok: the lexer cuts the output into the emitted pieces and gives every token its former raw kind;
+     1,2  rescan_ok: the lexer cuts the output into the emitted pieces and gives every token its former raw kind (for the kinds,
+          FormatIdemKindsProofs.format_idempotent_kinds asks equality up to the Individual / Inline flag of comments only);
           LexerRelayoutProofs gives the cut when every gap is a valid separator (FormatRescanProofs.format_rescan), the kinds are
           stable when the Inline/Individual flag of every comment is (a comment the search decides keeps its line position);
      3    no `asm` keyword (the parser reads the layout inside asm blocks);
-     4,5  neither run ignores a token (an ignored token keeps its text, so nothing is to prove there, but the marks of the second run
-          are computed from the REWRITTEN comments: that parse_toggle is stable under the comment rewriter is not proved);
+     4    the first run ignores no token;
+     5    the second run ignores no token: a consequence of the others (second_run_ignores_nothing: the marks of the second run are
+          computed from the REWRITTEN comments, and a `//` comment that is not a toggle is not one after the rewriter —
+          format_line_comment_keeps_non_toggle; block comments are not rewritten, directives are not comments).  idem_hyp6 /
+          idem_hyp_min / format_idempotent_min / idem_hypb_min are the statements without it; the first versions are corollaries;
      6    format_multiline_strings = false or no multi-line literal (F6 is a counterexample otherwise);
      7    every token but the final Eof is decided by the search (F42: a line without a solution keeps its counters as read);
      8    the second search reads the spaces_before the first one read.  For a token that continues its line in the output this is a
